@@ -124,6 +124,13 @@ def Cpl (p : WP) (e : Env) (fk : List Nat) : Prop :=
     (a.alive = true → a.stopReq = false ∧ p.curr.map (·.1) = a.heldJobs.map (·.key) ++ fk) ∧
     (a.alive = false → p.actor ∈ e.sup ∧ fk = [])
 
+theorem Cpl.keep' {p p' : WP} {e e' : Env} {fk : List Nat} (h : Cpl p e fk) (h1 : p'.actor = p.actor)
+    (h2 : p'.wid = p.wid) (h3 : p'.curr = p.curr) (h4 : e'.getActor p.actor = e.getActor p.actor)
+    (h5 : ∀ x, x ∈ e.sup → x ∈ e'.sup) : Cpl p' e' fk := by
+  obtain ⟨a, g, hw, ha, hd⟩ := h
+  exact ⟨a, by rw [h1, h4]; exact g, by rw [h2]; exact hw, by rw [h3]; exact ha,
+    fun hx => ⟨by rw [h1]; exact h5 _ (hd hx).1, (hd hx).2⟩⟩
+
 theorem Cpl.keep {p p' : WP} {e e' : Env} {fk : List Nat} (h : Cpl p e fk) (h1 : p'.actor = p.actor)
     (h2 : p'.wid = p.wid) (h3 : p'.curr = p.curr) (h4 : e'.getActor p.actor = e.getActor p.actor) (h5 : e'.sup = e.sup) :
     Cpl p' e' fk := by
@@ -459,5 +466,671 @@ theorem core_slotUpdate {fk fk' : Nat → List Nat} {w w' : W} {wid : Nat} {p p'
     by_cases hqw' : q.wid = wid
     · rw [hqw']; exact fun hc => hx hc.symm
     · exact hn q (by rw [h1]; exact mem_setW_of_ne hq hqw')
+
+
+/-! ## stop / die / spawn -/
+
+theorem stop_spec (e : Env) (aid : Nat) :
+    EnvStep aid e (e.stop aid) ∧
+    ∀ a, e.getActor aid = some a → ∃ a', (e.stop aid).getActor aid = some a' ∧ a'.wid = a.wid ∧ a'.alive = a.alive ∧
+      a'.heldJobs = a.heldJobs ∧ (a.alive = true → a'.stopReq = true) := by
+  unfold Env.stop
+  cases g : e.getActor aid with
+  | none => exact ⟨EnvStep.refl _ _, fun a ha => by cases ha⟩
+  | some a =>
+    simp only
+    have haid := getActor_aid g
+    by_cases hal : a.alive = true
+    · have hn : ¬ ((!a.alive) = true) := by rw [hal]; exact Bool.false_ne_true
+      rw [if_neg hn]
+      generalize ha' : ({ a with stopReq := true } : Actor) = a'
+      have haid' : a'.aid = aid := by subst ha'; exact haid
+      have g' : e.getActor a'.aid = some a := by rw [haid']; exact g
+      have hs := envStep_setActor e a a' g' (by subst ha'; rfl)
+      have hg := getActor_setActor_self e a a' g'
+      rw [haid'] at hs hg
+      refine ⟨hs, ?_⟩
+      intro x hx; cases hx
+      exact ⟨a', hg, by subst ha'; rfl, by subst ha'; rfl, by subst ha'; rfl, fun _ => by subst ha'; rfl⟩
+    · have hal' : a.alive = false := by simpa using hal
+      have hn : (!a.alive) = true := by rw [hal']; rfl
+      rw [if_pos hn]
+      refine ⟨EnvStep.refl _ _, ?_⟩
+      intro x hx; cases hx
+      exact ⟨a, g, rfl, rfl, rfl, fun h => by rw [hal'] at h; cases h⟩
+
+theorem die_noop (e : Env) (aid : Nat) (h : ∀ a, e.getActor aid = some a → a.alive = false) : e.die aid = e := by
+  unfold Env.die
+  cases g : e.getActor aid with
+  | none => rfl
+  | some a => simp only [h a g, Bool.not_false, if_true]
+
+theorem die_spec (e : Env) (aid : Nat) (a : Actor) (g : e.getActor aid = some a) (hal : a.alive = true) :
+    (e.die aid).sup = e.sup ++ [aid] ∧ (∀ b, b ≠ aid → (e.die aid).getActor b = e.getActor b) ∧
+    ∃ a', (e.die aid).getActor aid = some a' ∧ a'.alive = false ∧ a'.wid = a.wid := by
+  unfold Env.die
+  simp only [g]
+  have hn : ¬ ((!a.alive) = true) := by rw [hal]; exact Bool.false_ne_true
+  rw [if_neg hn]
+  have haid := getActor_aid g
+  generalize ha' : ({ a with alive := false, running := none, mailbox := [], stopReq := false } : Actor) = a'
+  have haid' : a'.aid = aid := by subst ha'; exact haid
+  have g' : e.getActor a'.aid = some a := by rw [haid']; exact g
+  have hg := getActor_setActor_self e a a' g'
+  rw [haid'] at hg
+  refine ⟨rfl, ?_, a', hg, by subst ha'; rfl, by subst ha'; rfl⟩
+  intro b hb
+  have := getActor_setActor_other e a' b (by rw [haid']; exact hb)
+  exact this
+
+theorem find_append_some {α : Type} (l1 l2 : List α) (f : α → Bool) (a : α) (h : l1.find? f = some a) :
+    (l1 ++ l2).find? f = some a := by
+  rw [List.find?_append, h]; rfl
+
+theorem getActor_spawn_old (e : Env) (wid aid b : Nat) (a : Actor) (h : e.getActor b = some a) :
+    (e.spawn wid aid).getActor b = some a :=
+  find_append_some _ _ _ _ h
+
+theorem getActor_spawn_inv (e : Env) (wid aid b : Nat) (a : Actor) (h : (e.spawn wid aid).getActor b = some a) :
+    e.getActor b = some a ∨ (e.getActor b = none ∧ b = aid ∧ a = { aid := aid, wid := wid }) := by
+  unfold Env.getActor Env.spawn at h
+  simp only [List.find?_append] at h
+  unfold Env.getActor
+  cases hx : e.actors.find? (·.aid == b) with
+  | some x => rw [hx] at h; left; simpa using h
+  | none =>
+    rw [hx] at h
+    simp only [Option.none_or, List.find?_cons, List.find?_nil] at h
+    right
+    cases hb : aid == b
+    · rw [hb] at h; cases h
+    · rw [hb] at h
+      simp only [Option.some.injEq] at h
+      exact ⟨rfl, ((by simpa using hb : aid = b)).symm, h.symm⟩
+
+theorem getActor_spawn_new (e : Env) (wid aid : Nat) (h : e.getActor aid = none) :
+    (e.spawn wid aid).getActor aid = some { aid := aid, wid := wid } := by
+  unfold Env.getActor Env.spawn
+  unfold Env.getActor at h
+  simp only [List.find?_append, h, Option.none_or, List.find?_cons, beq_self_eq_true]
+
+/-! ## Generic world updates -/
+
+theorem core_die {fk : Nat → List Nat} {w w' : W} (h : Core fk w) (aid : Nat)
+    (hns : ∀ p ∈ w.pool, p.actor = aid → fk p.wid = [])
+    (h1 : w'.pool = w.pool) (h2 : w'.byActor = w.byActor) (h3 : w'.nextAid = w.nextAid) (h4 : w'.env = w.env.die aid) :
+    Core fk w' := by
+  by_cases hnoop : ∀ a, w.env.getActor aid = some a → a.alive = false
+  · exact h.of_eq h1 h2 h3 (by rw [h4, die_noop _ _ hnoop]; exact EnvEq.refl _)
+  · have : ∃ a, w.env.getActor aid = some a ∧ a.alive = true := by
+      apply Classical.byContradiction
+      intro hc
+      apply hnoop
+      intro a ha
+      cases hx : a.alive with
+      | false => rfl
+      | true => exact absurd ⟨a, ha, hx⟩ hc
+    obtain ⟨a, g, hal⟩ := this
+    obtain ⟨hsup, hoth, a', g', hd', hw'⟩ := die_spec w.env aid a g hal
+    rw [← h4] at hsup hoth g'
+    refine ⟨h.slot.of_pool h1, by rw [h1]; exact h.nodupW, ?_, ?_, ?_, ?_, ?_, ?_, ?_⟩
+    · intro b x hb
+      rw [h3]
+      by_cases hba : b = aid
+      · subst hba; exact h.aidLt _ a g
+      · rw [hoth b hba] at hb; exact h.aidLt b x hb
+    · intro b hb
+      rw [hsup] at hb
+      by_cases hba : b = aid
+      · subst hba; exact ⟨a', g', hd'⟩
+      · rcases List.mem_append.mp hb with hb | hb
+        · obtain ⟨x, gx, hx⟩ := h.supDead b hb
+          exact ⟨x, by rw [hoth b hba]; exact gx, hx⟩
+        · simp at hb; exact absurd hb hba
+    · intro p hp; rw [h1] at hp; rw [h2]; exact h.by1 p hp
+    · intro x hx; rw [h2] at hx; rw [h1]; exact h.by2 x hx
+    · intro p hp
+      rw [h1] at hp
+      by_cases hpa : p.actor = aid
+      · obtain ⟨x, gx, hxw, _, _⟩ := h.sa p hp
+        rw [hpa, g] at gx; cases gx
+        refine ⟨a', by rw [hpa]; exact g', hw'.trans hxw, ?_, ?_⟩
+        · intro hc; rw [hd'] at hc; cases hc
+        · intro _
+          exact ⟨by rw [hsup, hpa]; exact List.mem_append_right _ (List.mem_singleton_self _), hns p hp hpa⟩
+      · exact (h.sa p hp).keep' rfl rfl rfl (hoth _ hpa) (fun x hx => by rw [hsup]; exact List.mem_append_left _ hx)
+    · intro b x hb hxl hn
+      by_cases hba : b = aid
+      · subst hba; rw [g'] at hb; cases hb; rw [hd'] at hxl; cases hxl
+      · rw [hoth b hba] at hb; rw [h1] at hn; exact h.free b x hb hxl hn
+    · intro wid hn; rw [h1] at hn; exact h.fin wid hn
+
+/-- an idle slot is dropped from the pool and its worker told to stop -/
+theorem core_removeSlot {fk : Nat → List Nat} {w w' : W} {wid : Nat} {p : WP} (h : Core fk w)
+    (hg : getW w.pool wid = some p) (hidle : p.curr = [])
+    (h1 : w'.pool = removeW w.pool wid) (h2 : w'.byActor = w.byActor.filter (fun x => x.1 != p.actor))
+    (h3 : w'.nextAid = w.nextAid) (h4 : w'.env = w.env.stop p.actor) : Core fk w' := by
+  have hpw : p.wid = wid := getW_wid hg
+  have hpm : p ∈ w.pool := getW_mem hg
+  obtain ⟨st, hself⟩ := stop_spec w.env p.actor
+  rw [← h4] at st hself
+  obtain ⟨a, g, haw, hal, hdead⟩ := h.sa p hpm
+  have hfk : fk wid = [] := by
+    cases hx : a.alive with
+    | true =>
+      have := (hal hx).2
+      rw [hidle] at this
+      simp only [List.map_nil] at this
+      rw [← hpw]
+      exact (List.append_eq_nil_iff.mp this.symm).2
+    | false => rw [← hpw]; exact (hdead hx).2
+  have hother : ∀ q ∈ w.pool, q.wid ≠ wid → q.actor ≠ p.actor := by
+    intro q hq hne hqa
+    have := h.actor_inj hq hpm hqa
+    subst this; exact hne hpw
+  have hmem : ∀ q, q ∈ w'.pool → q ∈ w.pool ∧ q.wid ≠ wid := by
+    intro q hq; rw [h1] at hq; exact mem_removeW_ne h.nodupW hq
+  refine ⟨h.slot.removeW h1, by rw [h1]; exact nodupW_removeW wid h.nodupW, ?_, ?_, ?_, ?_, ?_, ?_, ?_⟩
+  · intro aid x ha
+    rw [h3]
+    by_cases hb : aid = p.actor
+    · subst hb; exact h.aidLt _ a g
+    · rw [st.other aid hb] at ha; exact h.aidLt aid x ha
+  · intro aid ha
+    rw [st.sup] at ha
+    obtain ⟨x, gx, hd⟩ := h.supDead aid ha
+    by_cases hb : aid = p.actor
+    · subst hb
+      obtain ⟨a', g', _, hal', _, _⟩ := hself x gx
+      exact ⟨a', g', hal'.trans hd⟩
+    · exact ⟨x, by rw [st.other aid hb]; exact gx, hd⟩
+  · intro q hq
+    obtain ⟨hq1, hq2⟩ := hmem q hq
+    rw [h2]
+    refine List.mem_filter.mpr ⟨h.by1 q hq1, ?_⟩
+    simpa using hother q hq1 hq2
+  · intro x hx
+    rw [h2] at hx
+    obtain ⟨hx1, hx2⟩ := List.mem_filter.mp hx
+    obtain ⟨q, hq, hqa, hqw⟩ := h.by2 x hx1
+    have hne : q.wid ≠ wid := by
+      intro hc
+      have : q = p := nodupW_eq_of_wid h.nodupW hq hpm (hc.trans hpw.symm)
+      subst this
+      rw [hqa] at hx2; simp at hx2
+    exact ⟨q, by rw [h1]; exact mem_removeW_of_ne hq hne, hqa, hqw⟩
+  · intro q hq
+    obtain ⟨hq1, hq2⟩ := hmem q hq
+    exact (h.sa q hq1).keep rfl rfl rfl (st.other _ (hother q hq1 hq2)) st.sup
+  · intro aid x ha hxl hn
+    by_cases hb : aid = p.actor
+    · subst hb
+      obtain ⟨a', g', _, hal', hheld, hstop⟩ := hself a g
+      rw [g'] at ha; cases ha
+      have haal : a.alive = true := hal'.symm.trans hxl
+      have := (hal haal).2
+      rw [hidle] at this
+      simp only [List.map_nil] at this
+      have hh : a.heldJobs = [] := by simpa using (List.append_eq_nil_iff.mp this.symm).1
+      exact ⟨hheld.trans hh, hstop haal⟩
+    · rw [st.other aid hb] at ha
+      refine h.free aid x ha hxl ?_
+      intro q hq
+      by_cases hqw : q.wid = wid
+      · have : q = p := nodupW_eq_of_wid h.nodupW hq hpm (hqw.trans hpw.symm)
+        subst this; exact fun hc => hb hc.symm
+      · exact hn q (by rw [h1]; exact mem_removeW_of_ne hq hqw)
+  · intro x hn
+    by_cases hx : x = wid
+    · subst hx; exact hfk
+    · refine h.fin x ?_
+      intro q hq
+      by_cases hqw : q.wid = wid
+      · rw [hqw]; exact fun hc => hx hc.symm
+      · exact hn q (by rw [h1]; exact mem_removeW_of_ne hq hqw)
+
+/-- `grow_pool` builds a worker for a new slot -/
+theorem core_addSlot {fk : Nat → List Nat} {w w' : W} {wid : Nat} {d : Option (Nat × Mode)} {hd : Option Nat} (h : Core fk w)
+    (hg : getW w.pool wid = none)
+    (h1 : w'.pool = w.pool ++ [({ wid := wid, actor := w.nextAid, disc := d, handler := hd } : WP)])
+    (h2 : w'.byActor = w.byActor ++ [(w.nextAid, wid)])
+    (h3 : w'.nextAid = w.nextAid + 1) (h4 : w'.env = w.env.spawn wid w.nextAid) : Core fk w' := by
+  have hnone : w.env.getActor w.nextAid = none := by
+    cases hx : w.env.getActor w.nextAid with
+    | none => rfl
+    | some x => exact absurd (h.aidLt _ x hx) (Nat.lt_irrefl _)
+  have hnw : ∀ q ∈ w.pool, q.wid ≠ wid := by
+    intro q hq hc
+    exact getW_none_not_mem hg (List.mem_map.mpr ⟨q, hq, hc⟩)
+  have hfk : fk wid = [] := h.fin wid hnw
+  generalize hp0 : ({ wid := wid, actor := w.nextAid, disc := d, handler := hd } : WP) = p0 at h1
+  have hp0w : p0.wid = wid := by subst hp0; rfl
+  have hp0a : p0.actor = w.nextAid := by subst hp0; rfl
+  have hp0c : p0.curr = [] := by subst hp0; rfl
+  refine ⟨?_, ?_, ?_, ?_, ?_, ?_, ?_, ?_, ?_⟩
+  · intro q hq
+    rw [h1] at hq
+    rcases List.mem_append.mp hq with hq | hq
+    · exact h.slot q hq
+    · simp only [List.mem_singleton] at hq; subst hq; subst hp0; exact slotOk_inv.fresh _ _ _ _
+  · rw [h1]; subst hp0; exact nodupW_append_new hg h.nodupW
+  · intro b x hb
+    rw [h4] at hb; rw [h3]
+    rcases getActor_spawn_inv _ _ _ _ _ hb with hb | ⟨_, hb, _⟩
+    · exact Nat.lt_succ_of_lt (h.aidLt b x hb)
+    · rw [hb]; exact Nat.lt_succ_self _
+  · intro b hb
+    rw [h4] at hb ⊢
+    obtain ⟨x, gx, hx⟩ := h.supDead b hb
+    exact ⟨x, getActor_spawn_old _ _ _ _ _ gx, hx⟩
+  · intro q hq
+    rw [h1] at hq; rw [h2]
+    rcases List.mem_append.mp hq with hq | hq
+    · exact List.mem_append_left _ (h.by1 q hq)
+    · simp only [List.mem_singleton] at hq; subst hq
+      rw [hp0w, hp0a]; exact List.mem_append_right _ (List.mem_singleton_self _)
+  · intro x hx
+    rw [h2] at hx; rw [h1]
+    rcases List.mem_append.mp hx with hx | hx
+    · obtain ⟨q, hq, hqa, hqw⟩ := h.by2 x hx
+      exact ⟨q, List.mem_append_left _ hq, hqa, hqw⟩
+    · simp only [List.mem_singleton] at hx; subst hx
+      exact ⟨p0, List.mem_append_right _ (List.mem_singleton_self _), hp0a, hp0w⟩
+  · intro q hq
+    rw [h1] at hq
+    rcases List.mem_append.mp hq with hq | hq
+    · obtain ⟨x, gx, hxw, hxa, hxd⟩ := h.sa q hq
+      exact ⟨x, by rw [h4]; exact getActor_spawn_old _ _ _ _ _ gx, hxw, hxa, by rw [h4]; exact hxd⟩
+    · simp only [List.mem_singleton] at hq; subst hq
+      refine ⟨{ aid := w.nextAid, wid := wid }, by rw [h4, hp0a]; exact getActor_spawn_new _ _ _ hnone, hp0w.symm, ?_, ?_⟩
+      · intro _; exact ⟨rfl, by rw [hp0c, hp0w, hfk]; rfl⟩
+      · intro hc; cases hc
+  · intro b x hb hxl hn
+    rw [h4] at hb
+    rcases getActor_spawn_inv _ _ _ _ _ hb with hb | ⟨_, hb, _⟩
+    · exact h.free b x hb hxl (fun q hq => hn q (by rw [h1]; exact List.mem_append_left _ hq))
+    · exact absurd (hp0a.trans hb.symm) (hn p0 (by rw [h1]; exact List.mem_append_right _ (List.mem_singleton_self _)))
+  · intro x hn
+    exact h.fin x (fun q hq => hn q (by rw [h1]; exact List.mem_append_left _ hq))
+
+
+/-! ## The factory's functions keep the invariant -/
+
+/-- pool, actor map, id counter and actors untouched (the log may grow) -/
+structure ActFrame (w w' : W) : Prop where
+  pool : w'.pool = w.pool
+  byActor : w'.byActor = w.byActor
+  nextAid : w'.nextAid = w.nextAid
+  env : EnvEq w.env w'.env
+
+theorem ActFrame.refl (w : W) : ActFrame w w := ⟨rfl, rfl, rfl, EnvEq.refl _⟩
+theorem ActFrame.trans {a b c : W} (h1 : ActFrame a b) (h2 : ActFrame b c) : ActFrame a c :=
+  ⟨h2.pool.trans h1.pool, h2.byActor.trans h1.byActor, h2.nextAid.trans h1.nextAid, h1.env.trans h2.env⟩
+theorem Core.frame {fk : Nat → List Nat} {w w' : W} (h : Core fk w) (f : ActFrame w w') : Core fk w' :=
+  h.of_eq f.pool f.byActor f.nextAid f.env
+theorem RouterFrame.act {w w' : W} (f : RouterFrame w w') : ActFrame w w' :=
+  ⟨f.pool, f.byActor, f.nextAid, by rw [f.env]; exact EnvEq.refl _⟩
+
+variable {fk : Nat → List Nat}
+
+theorem core_routeInner (w : W) (j : Job) (hint : Option Nat) (h : Core fk w) : Core fk (w.routeInner j hint).2 := by
+  unfold W.routeInner
+  have hs := chooseTargetWorker_frame w j hint
+  cases hc : w.chooseTargetWorker j hint with
+  | mk t w1 =>
+    rw [hc] at hs
+    simp only at hs ⊢
+    have h1 : Core fk w1 := h.frame hs.act
+    cases t with
+    | none => exact h1
+    | some wid =>
+      simp only
+      cases hg : getW w1.pool wid with
+      | none => exact h1
+      | some p =>
+        simp only
+        have hpw : p.wid = wid := getW_wid hg
+        have r := sres_enqueueJob p w1.env j (fk wid) (by rw [← hpw]; exact h1.sa p (getW_mem hg))
+        have hso := slotOk_inv.enqueue p w1.env j (h1.slot p (getW_mem hg))
+        cases he : p.enqueueJob w1.env j with
+        | mk p' e' =>
+          rw [he] at r hso
+          exact core_slotUpdate (w' := { w1 with pool := setW w1.pool wid p', env := e' }) h1 hg r hso
+            (fun _ _ => rfl) rfl rfl rfl
+
+theorem core_routeLimited (w : W) (j : Job) (hint : Option Nat) (h : Core fk w) : Core fk (w.routeLimited j hint).2 := by
+  unfold W.routeLimited
+  split
+  · exact core_routeInner w j hint h
+  · rename_i c lb _
+    simp only
+    have h0 : Core fk { w with rl := some (c, (LeakyBucket.check c lb w.env.now).1) } := h.frame ⟨rfl, rfl, rfl, EnvEq.refl _⟩
+    split
+    · split
+      · split
+        · rename_i hh _
+          exact h0.frame (availChange_frame { w with rl := some (c, (LeakyBucket.check c lb w.env.now).1) } hh true).act
+        · exact h0
+      · exact h0
+    · have hi := core_routeInner _ j hint h0
+      cases hr : W.routeInner { w with rl := some (c, (LeakyBucket.check c lb w.env.now).1) } j hint with
+      | mk r w2 =>
+        rw [hr] at hi
+        simp only at hi ⊢
+        split
+        · exact hi.frame ⟨rfl, rfl, rfl, EnvEq.refl _⟩
+        · exact hi
+
+theorem core_routeMessage (w : W) (j : Job) (hint : Option Nat) (h : Core fk w) : Core fk (w.routeMessage j hint).2 := by
+  unfold W.routeMessage
+  have hi := core_routeLimited w j hint h
+  cases hr : w.routeLimited j hint with
+  | mk r w2 => rw [hr] at hi; exact hi.frame ⟨rfl, rfl, rfl, EnvEq.refl _⟩
+
+theorem dropExpiredHead_act (fuel : Nat) (w : W) : ActFrame w (W.dropExpiredHead fuel w) := by
+  induction fuel generalizing w with
+  | zero => exact ActFrame.refl w
+  | succ fuel ih =>
+    unfold W.dropExpiredHead
+    split
+    · split
+      · split
+        · rename_i j' q _
+          refine ActFrame.trans ?_ (ih _)
+          exact ⟨rfl, rfl, rfl, (envEq_discard _ _ _ _).trans (envEq_reject _ _)⟩
+        · exact ActFrame.refl w
+      · exact ActFrame.refl w
+    · exact ActFrame.refl w
+
+theorem core_routeLoop (hint : Option Nat) (fuel : Nat) (w : W) (h : Core fk w) : Core fk (W.routeLoop hint fuel w) := by
+  induction fuel generalizing w with
+  | zero => exact h
+  | succ fuel ih =>
+    unfold W.routeLoop
+    split
+    · exact h
+    · rename_i j _
+      have hs := chooseTargetWorker_frame w j hint
+      cases hc : w.chooseTargetWorker j hint with
+      | mk t w1 =>
+        rw [hc] at hs
+        simp only at hs ⊢
+        have h1 : Core fk w1 := h.frame hs.act
+        cases t with
+        | none => exact h1
+        | some worker =>
+          simp only
+          cases hp : qPopFront w1.cfg w1.queue with
+          | none => exact h1
+          | some jq =>
+            obtain ⟨j', q⟩ := jq
+            simp only
+            have hr := core_routeMessage { w1 with queue := q } j' (some worker) (h1.frame ⟨rfl, rfl, rfl, EnvEq.refl _⟩)
+            cases hrm : W.routeMessage { w1 with queue := q } j' (some worker) with
+            | mk r w2 =>
+              rw [hrm] at hr
+              cases r with
+              | handled => exact hr
+              | rateLimited =>
+                exact ih _ (hr.frame ⟨rfl, rfl, rfl, (envEq_discard _ _ _ _).trans (envEq_reject _ _)⟩)
+              | backlog => exact hr.frame ⟨rfl, rfl, rfl, (envEq_emit _ _).trans (envEq_emit _ _)⟩
+
+theorem core_tryRoute (w : W) (hint : Option Nat) (h : Core fk w) : Core fk (w.tryRouteNextActiveJob hint) := by
+  unfold W.tryRouteNextActiveJob
+  exact core_routeLoop _ _ _ (h.frame (dropExpiredHead_act _ _))
+
+theorem shedQueueOldest_act (limit fuel : Nat) (w : W) : ActFrame w (W.shedQueueOldest limit fuel w) := by
+  induction fuel generalizing w with
+  | zero => exact ActFrame.refl w
+  | succ fuel ih =>
+    unfold W.shedQueueOldest
+    split
+    · split
+      · refine ActFrame.trans ?_ (ih _)
+        exact ⟨rfl, rfl, rfl, envEq_discard _ _ _ _⟩
+      · exact ih w
+    · exact ActFrame.refl w
+
+theorem maybeEnqueue_act (w : W) (j : Job) : ActFrame w (w.maybeEnqueue j) := by
+  unfold W.maybeEnqueue
+  split
+  · split
+    · exact ⟨rfl, rfl, rfl, (envEq_discard _ _ _ _).trans (envEq_reject _ _)⟩
+    · exact ⟨rfl, rfl, rfl, envEq_accept _ _⟩
+  · dsimp only
+    refine ActFrame.trans ?_ (shedQueueOldest_act _ _ _)
+    exact ⟨rfl, rfl, rfl, envEq_accept _ _⟩
+  · exact ⟨rfl, rfl, rfl, envEq_accept _ _⟩
+
+theorem slotOk_draining (p : WP) (b : Bool) (h : SlotOk p) : SlotOk { p with draining := b } := slotOk_inv.draining p b h
+
+/-- a slot's flags / settings change (nothing the coupling looks at) -/
+theorem core_setFlags {w w' : W} {wid : Nat} {p p' : WP} (h : Core fk w) (hg : getW w.pool wid = some p)
+    (ha : p'.actor = p.actor) (hw : p'.wid = p.wid) (hc : p'.curr = p.curr) (hso : SlotOk p')
+    (h1 : w'.pool = setW w.pool wid p') (h2 : w'.byActor = w.byActor) (h3 : w'.nextAid = w.nextAid)
+    (h4 : EnvEq w.env w'.env) : Core fk w' := by
+  have hpw : p.wid = wid := getW_wid hg
+  have r : SRes p w.env p' w'.env (fk wid) :=
+    sres_keep (by rw [← hpw]; exact h.sa p (getW_mem hg)) ha hw hc h4
+  exact core_slotUpdate h hg r hso (fun _ _ => rfl) h1 h2 h3
+
+theorem core_growOne (w : W) (wid : Nat) (h : Core fk w) : Core fk (w.growOne wid) := by
+  unfold W.growOne
+  split
+  · rename_i p hg
+    dsimp only
+    have h1 : Core fk { w with pool := setW w.pool wid { p with draining := false } } :=
+      core_setFlags (p' := { p with draining := false }) h hg rfl rfl rfl (slotOk_inv.draining p false (h.slot p (getW_mem hg))) rfl rfl rfl (EnvEq.refl _)
+    split
+    · exact h1.frame (availChange_frame _ _ _).act
+    · exact h1
+  · rename_i hg
+    dsimp only
+    refine Core.frame (w := { w with
+        nextAid := w.nextAid + 1
+        env := w.env.spawn wid w.nextAid
+        pool := w.pool ++ [({ wid := wid, actor := w.nextAid, disc := w.workerDiscard w.disc, handler := w.handler } : WP)]
+        byActor := w.byActor ++ [(w.nextAid, wid)] }) ?_ (availChange_frame _ _ _).act
+    exact core_addSlot h hg rfl rfl rfl rfl
+
+theorem core_foldl {f : W → Nat → W} (hf : ∀ w k, Core fk w → Core fk (f w k)) (l : List Nat) (w : W)
+    (h : Core fk w) : Core fk (l.foldl f w) := by
+  induction l generalizing w with
+  | nil => exact h
+  | cons a l ih => exact ih _ (hf _ _ h)
+
+theorem core_growPool (w : W) (n : Nat) (h : Core fk w) : Core fk (w.growPool n) := by
+  unfold W.growPool
+  exact core_foldl (fun w k hw => core_growOne w _ hw) _ w h
+
+theorem curr_of_notWorking {p : WP} (h : ¬ (p.isWorking = true)) : p.curr = [] := by
+  unfold WP.isWorking WP.isAvailable at h
+  cases hc : p.curr with
+  | nil => rfl
+  | cons x xs => rw [hc] at h; simp at h
+
+theorem core_shrinkOne (w : W) (wid : Nat) (h : Core fk w) : Core fk (w.shrinkOne wid) := by
+  unfold W.shrinkOne
+  split
+  · rename_i p hg
+    split
+    · exact core_setFlags (p' := { p with draining := true }) h hg rfl rfl rfl (slotOk_inv.draining p true (h.slot p (getW_mem hg))) rfl rfl rfl (EnvEq.refl _)
+    · rename_i hnw
+      have hf := (availChange_frame w wid false)
+      have h1 : Core fk (w.availChange wid false) := h.frame hf.act
+      have hg1 : getW (w.availChange wid false).pool wid = some p := by rw [hf.pool]; exact hg
+      exact core_removeSlot h1 hg1 (curr_of_notWorking hnw) rfl rfl rfl rfl
+  · exact h
+
+theorem core_shrinkPool (w : W) (n : Nat) (h : Core fk w) : Core fk (w.shrinkPool n) := by
+  unfold W.shrinkPool
+  exact core_foldl (fun w k hw => core_shrinkOne w _ hw) _ w h
+
+theorem core_flushAfterGrow (fuel : Nat) (w : W) (h : Core fk w) : Core fk (W.flushAfterGrow fuel w) := by
+  induction fuel generalizing w with
+  | zero => exact h
+  | succ fuel ih =>
+    unfold W.flushAfterGrow
+    simp only
+    split
+    · exact h
+    · split
+      · exact core_tryRoute w none h
+      · exact ih _ (core_tryRoute w none h)
+
+theorem core_resizePool (w : W) (n : Nat) (h : Core fk w) : Core fk (w.resizePool n) := by
+  unfold W.resizePool
+  split
+  · exact h
+  · simp only
+    split
+    · exact core_flushAfterGrow _ _ ((core_growPool w _ h).frame ⟨rfl, rfl, rfl, EnvEq.refl _⟩)
+    · split
+      · exact (core_shrinkPool w _ h).frame ⟨rfl, rfl, rfl, EnvEq.refl _⟩
+      · exact h.frame ⟨rfl, rfl, rfl, EnvEq.refl _⟩
+
+theorem core_dispatch (w : W) (j : Job) (h : Core fk w) : Core fk (w.dispatch j) := by
+  unfold W.dispatch
+  split
+  · exact h.frame ⟨rfl, rfl, rfl, (envEq_discard _ _ _ _).trans (envEq_reject _ _)⟩
+  · split
+    · have hr := core_routeMessage w j none h
+      cases hrm : w.routeMessage j none with
+      | mk r w2 =>
+        rw [hrm] at hr
+        cases r with
+        | handled => exact hr
+        | rateLimited => exact hr.frame ⟨rfl, rfl, rfl, (envEq_discard _ _ _ _).trans (envEq_reject _ _)⟩
+        | backlog => exact hr.frame (maybeEnqueue_act w2 j)
+    · exact h.frame ⟨rfl, rfl, rfl, (envEq_discard _ _ _ _).trans (envEq_reject _ _)⟩
+
+theorem core_ite (c : Prop) [Decidable c] (a b : W) (ha : Core fk a) (hb : Core fk b) : Core fk (if c then a else b) := by
+  split <;> assumption
+
+/-- the pending-report function with the head report `Finished(who, key)` put back -/
+def fkCons (fk : Nat → List Nat) (who key : Nat) : Nat → List Nat := fun x => if x = who then key :: fk x else fk x
+
+theorem core_workerFinishedJob (w : W) (who key : Nat) (h : Core (fkCons fk who key) w) :
+    Core fk (w.workerFinishedJob who key) := by
+  unfold W.workerFinishedJob
+  split
+  · rename_i p hg
+    have hpw : p.wid = who := getW_wid hg
+    have hpm := getW_mem hg
+    have hcp : Cpl p w.env (key :: fk who) := by
+      have := h.sa p hpm
+      rw [hpw] at this
+      simpa [fkCons] using this
+    have r := sres_workerComplete p w.env key (fk who) (h.slot p hpm).one hcp
+    have hso := slotOk_inv.complete p w.env key (h.slot p hpm)
+    cases hwc : p.workerComplete w.env key with
+    | mk p' e' =>
+      rw [hwc] at r hso
+      simp only at r hso ⊢
+      have h1 : Core fk { w with pool := setW w.pool who p', env := e' } :=
+        core_slotUpdate (w' := { w with pool := setW w.pool who p', env := e' }) h hg r hso
+          (fun x hx => by simp [fkCons, hx]) rfl rfl rfl
+      have hg1 : getW (setW w.pool who p') who = some p' := getW_setW_same hg (r.wid.trans hpw)
+      split
+      · split
+        · rename_i hnw
+          exact core_removeSlot (w := { w with pool := setW w.pool who p', env := e' }) h1 hg1
+            (curr_of_notWorking (by simpa using hnw)) rfl rfl rfl rfl
+        · exact h1
+      · apply core_ite
+        · exact (core_tryRoute _ _ h1).frame (availChange_frame _ _ _).act
+        · exact core_tryRoute _ _ h1
+  · rename_i hg
+    -- no such slot: no report of it can be waiting
+    have hnw : ∀ q ∈ w.pool, q.wid ≠ who := by
+      intro q hq hc
+      exact getW_none_not_mem hg (List.mem_map.mpr ⟨q, hq, hc⟩)
+    have := h.fin who hnw
+    simp [fkCons] at this
+
+theorem core_removeExpired (w : W) (h : Core fk w) : Core fk w.removeExpired := by
+  unfold W.removeExpired
+  split
+  · refine h.frame ⟨rfl, rfl, rfl, ?_⟩
+    simp only
+    generalize expiredInOrder w.cfg w.env.now w.queue = ex
+    generalize w.env = e
+    induction ex generalizing e with
+    | nil => exact EnvEq.refl _
+    | cons x xs ih => exact (envEq_discard e _ _ x).trans (ih _)
+  · exact h
+
+theorem core_calcRest (w : W) (h : Core fk w) : Core fk w.calcRest := by
+  unfold W.calcRest
+  exact (core_removeExpired w h).frame ⟨rfl, rfl, rfl, EnvEq.refl _⟩
+
+/-- every record gets new settings / a new handler: nothing the coupling looks at -/
+theorem core_mapPool {w w' : W} (f : WP → WP) (h : Core fk w) (ha : ∀ p, (f p).actor = p.actor) (hw : ∀ p, (f p).wid = p.wid)
+    (hc : ∀ p, (f p).curr = p.curr) (hso : ∀ p, SlotOk p → SlotOk (f p))
+    (h1 : w'.pool = w.pool.map f) (h2 : w'.byActor = w.byActor) (h3 : w'.nextAid = w.nextAid)
+    (h4 : EnvEq w.env w'.env) : Core fk w' := by
+  refine ⟨?_, ?_, ?_, ?_, ?_, ?_, ?_, ?_, ?_⟩
+  · intro x hx; rw [h1] at hx
+    obtain ⟨y, hy, rfl⟩ := List.mem_map.mp hx
+    exact hso y (h.slot y hy)
+  · rw [h1]; unfold NodupW
+    rw [List.map_map]
+    have : ((fun x => x.wid) ∘ f) = (fun x : WP => x.wid) := by funext x; exact hw x
+    rw [this]; exact h.nodupW
+  · intro aid a ha'; rw [h3]; rw [h4.getActor] at ha'; exact h.aidLt aid a ha'
+  · intro aid ha'; rw [h4.sup] at ha'; rw [h4.getActor]; exact h.supDead aid ha'
+  · intro x hx; rw [h1] at hx
+    obtain ⟨y, hy, rfl⟩ := List.mem_map.mp hx
+    rw [h2, ha, hw]; exact h.by1 y hy
+  · intro x hx; rw [h2] at hx
+    obtain ⟨q, hq, hqa, hqw⟩ := h.by2 x hx
+    exact ⟨f q, by rw [h1]; exact List.mem_map_of_mem hq, (ha q).trans hqa, (hw q).trans hqw⟩
+  · intro x hx; rw [h1] at hx
+    obtain ⟨y, hy, rfl⟩ := List.mem_map.mp hx
+    rw [hw]
+    exact (h.sa y hy).keep (ha y) (hw y) (hc y) (h4.getActor _) h4.sup
+  · intro aid a ha' hal hn
+    rw [h4.getActor] at ha'
+    exact h.free aid a ha' hal (fun q hq => by rw [← ha q]; exact hn (f q) (by rw [h1]; exact List.mem_map_of_mem hq))
+  · intro x hn
+    exact h.fin x (fun q hq => by rw [← hw q]; exact hn (f q) (by rw [h1]; exact List.mem_map_of_mem hq))
+
+theorem core_updateSettings (w : W) (d : Option (Option (Nat × Mode))) (n : Option Nat) (h : Core fk w) :
+    Core fk (w.updateSettings d n) := by
+  unfold W.updateSettings
+  have h1 : Core fk (match d with
+      | some d => { w with pool := w.pool.map (fun p => { p with disc := w.workerDiscard d }), disc := d }
+      | none => w) := by
+    cases d with
+    | none => exact h
+    | some d =>
+      exact core_mapPool (fun p => { p with disc := w.workerDiscard d }) h (fun _ => rfl) (fun _ => rfl) (fun _ => rfl)
+        (fun p hp => slotOk_inv.disc p _ hp) rfl rfl rfl (EnvEq.refl _)
+  cases n with
+  | none => exact h1
+  | some n => exact core_resizePool _ n h1
+
+theorem core_afterReplace (w : W) (wid : Nat) (h : Core fk w) : Core fk (w.afterReplace wid) := by
+  unfold W.afterReplace
+  cases hret : w.retireIdleDrainingWorker wid with
+  | some w2 =>
+    simp only
+    unfold W.retireIdleDrainingWorker at hret
+    split at hret
+    · rename_i p hg
+      split at hret
+      · rename_i hc
+        simp only [Option.some.injEq] at hret; subst hret
+        have hnw : ¬ (p.isWorking = true) := by
+          simp only [Bool.and_eq_true, Bool.not_eq_eq_eq_not, Bool.not_true] at hc
+          rw [hc.2]; exact Bool.false_ne_true
+        exact core_removeSlot h hg (curr_of_notWorking hnw) rfl rfl rfl rfl
+      · simp at hret
+    · simp at hret
+  | none =>
+    simp only
+    apply core_ite
+    · exact (core_tryRoute _ _ h).frame (availChange_frame _ _ _).act
+    · exact core_tryRoute _ _ h
 
 end Factory
